@@ -201,3 +201,26 @@ Definition origin_of (u : url) : string * string * string :=
 Definition origin_eqb (a b : string * string * string) : bool :=
   let '(s1, h1, p1) := a in let '(s2, h2, p2) := b in
   String.eqb s1 s2 && String.eqb h1 h2 && String.eqb p1 p2.
+
+(* ------------------------------------------------------------------ the URL grammar, generatively
+   scheme "://" [userinfo "@"] host rest, every component as url.Parse accepts it:
+     scheme   = ALPHA *( ALPHA / DIGIT / "+" / "-" / "." )            (any case)
+     userinfo = bytes validUserinfo allows, without '%'               (may contain '@' and ':')
+     host     = what parseHost accepts: reg-name / IPv4 / "[" IPv6 "]", optional ":" digits
+                (upper case, trailing dot, empty port "host:" included)
+     rest     = "" or "/"... or "?"... or "#"..., no control byte before '#', no '%'      *)
+Definition scheme_byte (c : ascii) : bool := is_alpha c || scheme_tail_byte c.
+Definition valid_scheme (s : string) : bool :=
+  match s with String c t => is_alpha c && all_bytes scheme_byte t | EmptyString => false end.
+Definition valid_userinfo (ui : option string) : bool :=
+  match ui with Some u => all_bytes userinfo_byte_ok u && negb (mem_byte "%" u) | None => true end.
+Definition valid_host (h : string) : bool := match parse_host h with Some _ => true | None => false end.
+Definition valid_rest (r : string) : bool :=
+  (match r with EmptyString => true | String c _ => mem_byte c "/?#" end)
+  && negb (has_ctl (fst (cut "#" r))) && negb (mem_byte "%" r).
+
+Definition build_url (sch : string) (ui : option string) (h rest : string) : string :=
+  sch ++ "://" ++ (match ui with Some u => u ++ "@" | None => "" end) ++ h ++ rest.
+
+(* URL.Path of such a URL: the rest up to the first '?' or '#' *)
+Definition path_of_rest (r : string) : string := fst (cut "?" (fst (cut "#" r))).
